@@ -21,8 +21,8 @@ from koala import voronization, graph_utils
 from koala.lattice import Lattice
 
 DRIVERS = ("c03",)
-MODEL_TARGETS = ["Model/Lattice.vo", "Model/Delaunay.vo", "Model/VoronoiPost.vo", "Model/VoronoiPeriodic.vo"]
-TARGETS = ["Proofs/DelaunayFacts.vo", "Proofs/VoronoiPostFacts.vo", "Proofs/VoronoiPostCorrect.vo"]
+MODEL_TARGETS = ["Model/Lattice.vo", "Model/Delaunay.vo", "Model/VoronoiPost.vo", "Model/VoronoiPeriodic.vo", "Model/VoronoiDual.vo", "Model/VoronoiPeriodicTol.vo"]
+TARGETS = ["Proofs/DelaunayFacts.vo", "Proofs/VoronoiPostFacts.vo", "Proofs/VoronoiPostCorrect.vo", "Proofs/VoronoiPostDual.vo", "Proofs/VoronoiPostTol.vo"]
 LEVEL = "proof"
 TRUST = [
     "PARTIAL, checker-level: Qhull (scipy.spatial.Voronoi) is not modelled; the C03_* theorems are about the certificate checkers "
@@ -32,7 +32,10 @@ TRUST = [
     "the C03_post_* theorems are about that model; post_correct is proved at the graph level (C03_post_correct_graph / _trivalent: for a record that is periodic near the unit "
     "cell -- Model/VoronoiPeriodic.pvor_ok, evaluated per case by the extracted checker, counts H_* in `extra` -- the output has exactly the Voronoi vertices in the cell as vertices, "
     "exactly the finite ridges touching the cell, one per translation class, as edges, crossing = cell difference, degree = number of ridges, 2E = 3V); the link from there to "
-    "check_dual (the seeds around a kept vertex form the certificate's triangle) and the plaquette clauses are NOT proved",
+    "and C03_post_correct_dual: if moreover the record is dual to the triangle assignment read off ridge_points (Model/VoronoiDual.dual_ok, evaluated per case, H_dual_*) the "
+    "model's output passes check_dual for the certificate read off the record; pvor_ok can hold only where the replication is exact in floating point "
+    "(shift_vertices=True, dyadic inputs); C03_post_correct_dual_t / _counts_t give the same conclusions from the index-level periodicity pvor_t_ok (through the nearest-vertex "
+    "map, Model/VoronoiPeriodicTol.v), which also holds for Qhull's float circumcentres (H_pvor_t_*); that Qhull's record satisfies the hypotheses, and the plaquette clauses, are NOT proved",
     "KDTree.query(k=1) is modelled as the first vertex of minimal exact squared distance (C03_post_nearest_spec); queries whose runner-up is within 1e-9 are counted and skipped; "
     "the enumeration order of the CPython set `list(set(pbc_ridges.flatten()))` (vertex numbering, not constrained by the property) is an input of the model's "
     "re-indexing step with a checked contract (no repetition, exactly the surviving vertices): the harness recovers it from koala's positions (each within 1e-12 of "
@@ -434,7 +437,8 @@ def k_prepare(points, shift):
     toks.append(str(len(rp)))
     for a, b in rp:
         toks += [str(int(a)), str(int(b))]
-    return {"line": " ".join(toks), "S": S, "V": V, "P": P, "rep": rep, "pad": pad, "nV": len(V), "nR": len(rv)}
+    return {"line": " ".join(toks), "S": S, "V": V, "P": P, "rep": rep, "pad": pad, "nV": len(V), "nR": len(rv), "rv": rv,
+            "rp": [(int(a), int(b)) for a, b in rp]}
 
 
 def parse_pairs(tok, f):
@@ -576,8 +580,10 @@ def k_run(ctx, queue):
             toks += [str(j), str(k), hx(cx), hx(cy)]
         q["S2"] = S2
         q["sorted_out"] = o
+        q["order"] = order
         stage2.append((q, " ".join(toks)))
     outs2 = run_driver_parallel(ctx.exe["c03"], [t for _, t in stage2], jobs=8)
+    chain = []
     for (q, l2), o in zip(stage2, outs2):
         case = q["case"]
         if getattr(ctx, "xc", None) is not None:
@@ -617,6 +623,52 @@ def k_run(ctx, queue):
                            (f", max difference {np.max(np.abs(mp - Lpos)):.3g})" if mp.shape == Lpos.shape else ")"), case)
             continue
         ex["K_agree"] = ex.get("K_agree", 0) + 1
+        if (q.get("hyps") == (True, True) or q.get("hyps_t") == (True, True)) and q.get("dual") and len(q["points"]) <= 60:
+            # all hypotheses of C03_post_correct_dual / _counts hold: the certificate read off the record (triangles of the kept vertices in
+            # koala's vertex order, with box hints) and the MODEL's lattice go through the extracted checkers (see chain_run)
+            Tk = [q["T"][v] for v in q["order"]]
+            boxes = [box_hint(q["pts_scaled"], S2, t) for t in Tk]
+            w = 2
+            for (lox, hix, loy, hiy) in boxes:
+                w = max(w, -(lox // S2), hix // S2, -(loy // S2), hiy // S2)
+            if w <= 6:
+                chain.append((q, ser_case(q["pts_scaled"], S2, w, q["dual_tolS"], q["shift"], Tk, boxes, mpos, medges, mcross, list(range(len(Tk))))))
+        if q.get("hyps") == (True, True) or (q.get("hyps_t") == (True, True) and q.get("dual")):
+            # K agrees and the hypotheses of C03_post_correct_trivalent (or _dual_t) hold for the record: the conclusion, re-checked on koala's arrays
+            deg = np.bincount(np.asarray(Ledges, dtype=int).flatten(), minlength=len(Lpos))
+            ex["H_conclusion_checked_on_koala"] = ex.get("H_conclusion_checked_on_koala", 0) + 1
+            if np.any(deg != 3) or 2 * len(Ledges) != 3 * len(Lpos):
+                ctx.k_mismatch("pvor_ok and trivalent_ok hold for scipy's record and K agrees, but koala's lattice is not trivalent "
+                               f"(contradicts C03_post_correct_trivalent): degrees {sorted(set(int(d) for d in deg))}, V={len(Lpos)}, E={len(Ledges)}", case)
+
+
+    chain_run(ctx, chain)
+
+
+def chain_run(ctx, chain):
+    """Where every hypothesis of C03_post_correct_dual holds for scipy's record and K agrees: the extracted check_dual must accept the
+    MODEL's lattice with the certificate read off the record (that is the theorem's conclusion; a rejection means the extraction, the
+    driver or this harness is broken -> RuntimeError), and check_delaunay is evaluated on that same certificate: where it accepts,
+    C03_post_correct_counts gives 2N vertices and 3N edges for the model's (= koala's, by K) lattice, re-checked here."""
+    ex = ctx.res.extra
+    for k in ("H_chain_evaluated", "H_chain_check_dual_true", "H_chain_check_delaunay_true"):
+        ex.setdefault(k, 0)
+    outs = run_driver_parallel(ctx.exe["c03"], [l for _, l in chain], jobs=8)
+    for (q, line), o in zip(chain, outs):
+        if "error" in o:
+            raise RuntimeError(f"c03 driver error {o['error']} (chain) on {q['case']}")
+        _xc_push(ctx, "cert", line, o, len(q["points"]))
+        ex["H_chain_evaluated"] += 1
+        if o["dual"][0] != "1":
+            raise RuntimeError(f"pvor_ok, trivalent_ok and dual_ok hold but the extracted check_dual rejects the model's lattice with the record's certificate "
+                               f"(contradicts C03_post_correct_dual) on {q['case']}: { {k: v for k, v in o.items() if k.startswith('u_')} }")
+        ex["H_chain_check_dual_true"] += 1
+        if o["delaunay"][0] == "1":
+            ex["H_chain_check_delaunay_true"] += 1
+            Lpos, Ledges, _ = q["arrays"]
+            n = len(q["points"])
+            if len(Lpos) != 2 * n or len(Ledges) != 3 * n:
+                ctx.k_mismatch(f"all hypotheses of C03_post_correct_counts hold and K agrees, but koala returns {len(Lpos)} vertices / {len(Ledges)} edges for N={n}", q["case"])
 
 
 H_MAX_N = 80
@@ -627,12 +679,13 @@ def hyps_run(ctx, items):
     the unit cell, trivalent_ok = three finite ridges at every vertex in the cell), evaluated by the extracted checker on scipy's
     record of every case with N <= 80.  Recorded: how often they hold (they can only hold where the replication is exact in
     floating point: shift_vertices=True with dyadic inputs, where the vertices are sums of three replicated seeds; Qhull's float
-    circumcentres of translated triangles differ in the last bits).  Where both hold and K agrees, the theorems' conclusion
-    (every vertex has three edge ends, 2E = 3V) is re-checked on koala's arrays: a failure there contradicts theorem + K."""
+    circumcentres of translated triangles differ in the last bits).  Where both hold and K agrees (end of k_run), the theorems'
+    conclusion (every vertex has three edge ends, 2E = 3V) is re-checked on koala's arrays: a failure there contradicts theorem + K."""
     ex = ctx.res.extra
     sel = [q for q in items if len(q["points"]) <= H_MAX_N]
     outs = run_driver_parallel(ctx.exe["c03"], ["hyps" + q["line"][4:] for q in sel], jobs=8)
-    for k in ("H_evaluated", "H_stages_fail", "H_pvor_true", "H_pvor_true_trivalent_true", "H_conclusion_checked_on_koala"):
+    for k in ("H_evaluated", "H_stages_fail", "H_pvor_true", "H_pvor_true_trivalent_true", "H_conclusion_checked_on_koala",
+              "H_dual_evaluated", "H_dual_true", "H_all_hypotheses_true_and_S_check_dual_ok"):
         ex.setdefault(k, 0)
     by = ex.setdefault("H_pvor_true_by_family", {})
     for q, o in zip(sel, outs):
@@ -654,13 +707,79 @@ def hyps_run(ctx, items):
             by[fam][0] += 1
         if pv and tri:
             ex["H_pvor_true_trivalent_true"] += 1
-            if "arrays" in q:
-                _, Ledges, _ = q["arrays"]
-                deg = np.bincount(np.asarray(Ledges, dtype=int).flatten(), minlength=len(q["arrays"][0]))
-                ex["H_conclusion_checked_on_koala"] += 1
-                if np.any(deg != 3) or 2 * len(Ledges) != 3 * len(q["arrays"][0]):
-                    ctx.k_mismatch("pvor_ok and trivalent_ok hold for scipy's record (C03_post_correct_trivalent applies to the model) but koala's "
-                                   f"lattice is not trivalent: degrees {sorted(set(int(d) for d in deg))}, V={len(q['arrays'][0])}, E={len(Ledges)}", q["case"])
+    # ---- the index-level periodicity (Model/VoronoiPeriodicTol.pvor_t_ok: through the nearest-vertex map koala itself uses; it does not need
+    #      exact replication, so it can hold for Qhull's float circumcentres too): hypothesis of C03_post_correct_dual_t / _counts_t
+    touts = run_driver_parallel(ctx.exe["c03"], ["hypst" + q["line"][4:] for q in sel], jobs=8)
+    for k in ("H_pvor_t_true", "H_pvor_t_true_trivalent_true", "H_exact_true_but_index_level_false"):
+        ex.setdefault(k, 0)
+    byt = ex.setdefault("H_pvor_t_true_by_family", {})
+    for q, o in zip(sel, touts):
+        if "error" in o:
+            raise RuntimeError(f"c03 driver error {o['error']} (hypst) on {q['case']}")
+        _xc_push(ctx, "hypst", "hypst" + q["line"][4:], o, len(q["points"]))
+        fam = f"shift={int(q['shift'])}/" + ("dyadic" if q["case"].get("bits") else "float64")
+        byt.setdefault(fam, [0, 0])
+        byt[fam][1] += 1
+        h = o["hypst"]
+        if h[0] == "N":
+            continue
+        q["hyps_t"] = (h[0] == "1", h[1] == "1")
+        ex["H_pvor_t_true"] += int(q["hyps_t"][0])
+        byt[fam][0] += int(q["hyps_t"][0])
+        ex["H_pvor_t_true_trivalent_true"] += int(q["hyps_t"] == (True, True))
+        if q.get("hyps", (False, False))[0] and not q["hyps_t"][0]:
+            ex["H_exact_true_but_index_level_false"] += 1
+    # ---- the record-level duality hypothesis of C03_post_correct_dual(_t) (Model/VoronoiDual.dual_ok), where the periodicity (exact or
+    #      index-level) and trivalent_ok hold
+    dsel = [q for q in sel if q.get("hyps") == (True, True) or q.get("hyps_t") == (True, True)]
+    for q in dsel:
+        q["dual_line"] = dual_line(q)
+    douts = run_driver_parallel(ctx.exe["c03"], [q["dual_line"] for q in dsel], jobs=8)
+    for q, o in zip(dsel, douts):
+        if "error" in o:
+            raise RuntimeError(f"c03 driver error {o['error']} (dual) on {q['case']}")
+        _xc_push(ctx, "dual", q["dual_line"], o, len(q["points"]))
+        ex["H_dual_evaluated"] += 1
+        q["dual"] = (o["dual"][0] == "1")
+        ex["H_dual_true"] += int(q["dual"])
+
+
+def dual_line(q):
+    """the `dual` command for one prepared K item: the seeds on the scale of the (shifted) vertices and the triangle assignment T,
+    one triangle per Voronoi vertex of scipy's record, read off ridge_points: the three seeds separated by the ridges at the vertex,
+    as sites (seed index, cell offset of the copy), counter-clockwise (exact orientation), smallest site first (a normal form that
+    commutes with lattice translations); vertices that do not have exactly three seeds get the dummy triangle."""
+    n, pad, P, S, shift = len(q["points"]), q["pad"], q["P"], q["S"], q["shift"]
+    offs = [(dx, dy) for dx in range(-pad, pad + 1) for dy in range(-pad, pad + 1)]
+    centre = offs.index((0, 0))
+    k = 3 if shift else 1
+    pts = [(k * P[centre * n + i][0], k * P[centre * n + i][1]) for i in range(n)]
+    seeds = {}
+    for (a, b), (g, h) in zip(q["rv"], q["rp"]):
+        for v in (a, b):
+            if v >= 0:
+                seeds.setdefault(v, set()).update((g, h))
+    T = []
+    for v in range(q["nV"]):
+        sd = sorted(seeds.get(v, ()))
+        if len(sd) != 3:
+            T.append(((0, (0, 0)), (0, (0, 0)), (0, (0, 0))))
+            continue
+        a, b, c = sd
+        if orient(P[a], P[b], P[c]) < 0:
+            b, c = c, b
+        tri = [(g % n, offs[g // n]) for g in (a, b, c)]
+        m = tri.index(min(tri))
+        T.append(tuple(tri[m:] + tri[:m]))
+    q["T"] = T
+    q["pts_scaled"] = pts
+    tolS = 0 if shift else int(TOL * S) + 1
+    q["dual_tolS"] = tolS
+    toks = ["dual" + q["line"][4:], hx(tolS), str(n)] + [hx(v) for xy in pts for v in xy] + [str(len(T))]
+    for t in T:
+        for (i, (ox, oy)) in t:
+            toks += [str(i), hx(ox), hx(oy)]
+    return " ".join(toks)
 
 
 # ------------------------------------------------------------------ extraction cross-check (DESIGN 1.3)
@@ -677,6 +796,8 @@ def coq_crosscheck(ctx):
       c03       (check_delaunay, check_dual, dense_ok 1/3, dense_ok 2/3)                         N <= 8
       post      post_stages: scale, shifted vertices, ridges with crossings, sorted survivors, tie margins (or the error)   N <= 12
       hyps      post_hyps (pvor_ok, trivalent_ok)                                                same records
+      hypst     post_hyps_t (pvor_t_ok, trivalent_ok)                                            same records
+      dual      post_dual_hyp (dual_ok for the triangle assignment read off ridge_points)         same records, where evaluated
       reindex   reindex vs order es                                                              same cases
       replicate (padding_of, generate_point_array)"""
     import xcheck as X
@@ -699,7 +820,7 @@ def coq_crosscheck(ctx):
         "  match r with Err e => inl e | Ok (S', vs, (es, ms)) => inr (S', vs, es, sorted_nodup (edge_ends es), ms) end.",
     ]
     g = lambda lhs, rhs: body.append(X.goal(lhs, rhs))
-    counts = {"c03": 0, "post": 0, "hyps": 0, "reindex": 0, "replicate": 0}
+    counts = {"c03": 0, "post": 0, "hyps": 0, "hypst": 0, "dual": 0, "reindex": 0, "replicate": 0}
     # ---- certificate checkers
     for n, (line, o, _) in enumerate(pick(xc["cert"], 8, 6 if quick else 30)):
         c = Cursor(line.split()[1:])
@@ -721,6 +842,7 @@ def coq_crosscheck(ctx):
     err_lit = lambda t: (f"({t[0]} {N(int(t[1]))})" if len(t) > 1 else t[0])
     chosen = pick(xc["post"], 12, 5 if quick else 25)
     hyps = {line: o for line, o, _ in xc["hyps"]}
+    hypst = {line: o for line, o, _ in xc["hypst"]}
     rei = {id_: (line, o) for id_, line, o in xc["reindex"]}
     for n, (line, o, _) in enumerate(chosen):
         c = Cursor(line.split()[1:])
@@ -751,6 +873,21 @@ def coq_crosscheck(ctx):
             t = h["hyps"]
             g(f"post_hyps {B(shift)} {Z(S)} pP{n} pV{n}", "None" if t[0] == "N" else f"Some ({B(t[0] == '1')}, {B(t[1] == '1')})")
             counts["hyps"] += 1
+        h = hypst.get("hypst" + line[4:])
+        if h is not None and "error" not in h:
+            t = h["hypst"]
+            g(f"post_hyps_t {B(shift)} {Z(S)} pP{n} pV{n}", "None" if t[0] == "N" else f"Some ({B(t[0] == '1')}, {B(t[1] == '1')})")
+            counts["hypst"] += 1
+        dl = next(((l, o3) for l, o3, _ in xc["dual"] if l.startswith("dual" + line[4:] + " ")), None)
+        if dl is not None and "error" not in dl[1]:
+            c = Cursor(dl[0][len(line):].split())
+            tol = c.z()
+            pts = c.list(lambda: (c.z(), c.z()))
+            TT = c.list(lambda: ((c.int(), (c.z(), c.z())), (c.int(), (c.z(), c.z())), (c.int(), (c.z(), c.z()))))
+            tri = lambda t: f"({site(t[0])}, {site(t[1])}, {site(t[2])})"
+            t = dl[1]["dual"][0]
+            g(f"post_dual_hyp {B(shift)} {Z(S)} {Z(tol)} pP{n} {X.lst(zp, pts)} pV{n} {X.lst(tri, TT)}", "None" if t == "N" else f"Some {B(t == '1')}")
+            counts["dual"] += 1
         if line in rei:
             l2, o2 = rei[line]
             c = Cursor(l2.split()[1:])
@@ -775,7 +912,7 @@ def coq_crosscheck(ctx):
         g(f"(padding_of {N(len(P))}, generate_point_array {Z(S)} {X.lst(zp, P)} (padding_of {N(len(P))}))", f"({Z(unhx(o['padding'][0]))}, {X.lst(zp, pts)})")
         counts["replicate"] += 1
     res = ctx.res
-    res.extra["extraction_crosscheck_goals_vm_compute"] = X.compile_goals("c03", "Model.Lattice Model.Delaunay Model.VoronoiPost Model.VoronoiPeriodic", body, "c03")
+    res.extra["extraction_crosscheck_goals_vm_compute"] = X.compile_goals("c03", "Model.Lattice Model.Delaunay Model.VoronoiPost Model.VoronoiPeriodic Model.VoronoiDual Model.VoronoiPeriodicTol", body, "c03")
     res.extra["extraction_crosscheck_cases"] = counts
     res.extra["extraction_crosscheck_wall_s"] = X.LAST_WALL
 
@@ -837,6 +974,7 @@ def evaluate(ctx, cases, label, lloyd=True):
     kq, ctx.kq = ctx.kq, None
     t0 = time.time()
     k_run(ctx, kq)
+    hypmap = {id(q["case"]): q for q in kq}
     res.extra["K_seconds"] = round(res.extra.get("K_seconds", 0) + time.time() - t0, 1)
     runnable = [c for c in prepared if "line" in c]
     outs = run_driver_parallel(ctx.exe["c03"], [c["line"] for c in runnable], jobs=8)
@@ -878,6 +1016,21 @@ def evaluate(ctx, cases, label, lloyd=True):
             continue
         dense = o["dense13" if n > 10 else "dense23"][0] == "1"
         dual_ok = o["dual"][0] == "1"
+        hq = hypmap.get(id(case))
+        if hq is not None and (hq.get("hyps") == (True, True) or hq.get("hyps_t") == (True, True)) and hq.get("dual") and dual_ok:
+            # all hypotheses of C03_post_correct_dual hold for scipy's record AND koala's lattice passes check_dual for the independent certificate
+            res.extra["H_all_hypotheses_true_and_S_check_dual_ok"] = res.extra.get("H_all_hypotheses_true_and_S_check_dual_ok", 0) + 1
+            if o["delaunay"][0] == "1" and "sorted_out" in hq and "T" in hq:
+                # the certificate of the theorem (triangles of the kept vertices, read off scipy's ridge_points) against the independent,
+                # VALIDATED (check_delaunay) certificate of S: the same set of triangles (sites ccw, smallest site first)?
+                def norm(t):
+                    t = [(int(i), (int(ox), int(oy))) for (i, (ox, oy)) in t]
+                    m = t.index(min(t))
+                    return tuple(t[m:] + t[:m])
+                kept = [int(t) for t in hq["sorted_out"]["sorted"][1:]]
+                same = {norm(hq["T"][v]) for v in kept} == {norm(t) for t in c["T"]}
+                key = "H_record_certificate_equals_validated_certificate" if same else "H_record_certificate_differs_from_validated_certificate"
+                res.extra[key] = res.extra.get(key, 0) + 1
         if not dense:
             ex["nondense_skipped"] += 1
             ex["nondense_but_dual_ok" if dual_ok else "nondense_dual_fails"] += 1
@@ -1067,7 +1220,7 @@ def run(ctx):
                     "coordinates either rounded to 30 binary digits (replication p+k exact) or raw float64; plus a 'grid' family (N=2..13 distinct points of a 1/8, 1/16, 1/32 grid, where "
                     "centroids fall EXACTLY on the cell boundary: evaluated for shift_vertices=True, where the float centroid is exact); a case counts (non-trivial, distinct by hash of points+shift) only when its "
                     "independent certificate validates, the density precondition holds and it is generic; everything else is in 'skipped'")
-    ctx.xc = {"cert": [], "post": [], "hyps": [], "reindex": [], "rep": []}
+    ctx.xc = {"cert": [], "post": [], "hyps": [], "hypst": [], "dual": [], "reindex": [], "rep": []}
     evaluate(ctx, corpus_cases() + gen_cases(ctx.tier, ctx.seed), "S")
     coq_crosscheck(ctx)      # extraction cross-check: a sample of the driver's answers re-derived inside Coq
     ctx.xc = None
